@@ -3,6 +3,8 @@
 package hessian
 
 import (
+	"bufio"
+	"bytes"
 	"math"
 	"reflect"
 	"time"
@@ -91,20 +93,20 @@ func H_ST_records() {
 	for i, x := range []int32{0, 1, -1, 47, 48, -16, -17, 2047, 2048, -2048, -2049, 262143, 262144, -262144, -262145, math.MaxInt32, math.MinInt32} {
 		b := encodeInt(x)
 		vRecord("int/"+itoa(i), b)
-		g, err := decodeIntValue(vReader(b), _tagRead)
+		g, err := decodeIntValue(stReader(b), _tagRead)
 		vRecord("int-back/"+itoa(i), append(stErr(err), encodeInt(g)...))
 	}
 	for i, x := range []int64{0, 15, 16, -8, -9, 2047, 2048, -2048, -2049, 262143, 262144, -262144, -262145, math.MaxInt32, math.MaxInt32 + 1, math.MinInt32, math.MinInt32 - 1, math.MaxInt64, math.MinInt64} {
 		b := encodeLong(x)
 		vRecord("long/"+itoa(i), b)
-		g, err := decodeLongValue(vReader(b), _tagRead)
+		g, err := decodeLongValue(stReader(b), _tagRead)
 		vRecord("long-back/"+itoa(i), append(stErr(err), encodeLong(g)...))
 	}
 	for i, x := range []float64{0, 1, -128, -127, 127, 128, -32768, 32767, 32768, 12345.6789, float64(float32(13.14)), math.MaxFloat32, math.MaxFloat64, math.SmallestNonzeroFloat64, math.Inf(1), 1e10, -0.5} {
 		b, err := encodeDouble(x)
 		vRecord("double/"+itoa(i), append(stErr(err), b...))
 		if err == nil {
-			g, err := decodeDoubleValue(vReader(b), _tagRead)
+			g, err := decodeDoubleValue(stReader(b), _tagRead)
 			b2, _ := encodeDouble(g)
 			vRecord("double-back/"+itoa(i), append(stErr(err), b2...))
 		}
@@ -121,7 +123,7 @@ func H_ST_records() {
 		s := string(rs)
 		b := encodeString(s)
 		vRecord("string/"+itoa(i), b)
-		g, err := decodeStringValue(vReader(b), _tagRead)
+		g, err := decodeStringValue(stReader(b), _tagRead)
 		vRecord("string-back/"+itoa(i), append(stErr(err), []byte(g)...))
 	}
 	for i, n := range []int{0, 10, 15, 20, 4096, 4111, 8192} {
@@ -131,7 +133,7 @@ func H_ST_records() {
 		}
 		b := encodeBinary(bs)
 		vRecord("binary/"+itoa(i), b)
-		g, err := decodeBinaryValue(vReader(b), _tagRead)
+		g, err := decodeBinaryValue(stReader(b), _tagRead)
 		vRecord("binary-back/"+itoa(i), append(stErr(err), g...))
 	}
 	// TestDate
@@ -203,3 +205,5 @@ func H_ST_records() {
 	}
 	vAssert("recorded", true)
 }
+
+func stReader(b []byte) ByteRuneReader { return bufio.NewReader(bytes.NewReader(b)) }
